@@ -134,7 +134,7 @@ def run(ctx):
                      "RL.exec; the implementation answers differently from RL.exec on this history",
              what="lock-step history: `tick` = exactly one tick of the ticker goroutine; rK = K-th Use call")
     _stress_corpus(ctx)
-    ctx.impl_oracle("stress", n={"quick": 96, "thorough": 2400}, timeout=1500,
+    ctx.impl_oracle("stress", n={"quick": 96, "thorough": 1200}, timeout=1500,
                     label="Close on root/child concurrently with microsecond ticks and Use calls; every attempt under "
                           "a 5 s deadline in a child process (C16.close_returns / answer_exactly_once / "
                           "close_marks_subtree_and_fails_pending)",
